@@ -29,8 +29,12 @@ def sizes(tier, deep, quick, thorough):
 def walk_query(rng, doc, g, max_seg=4, filters=False):
     out = ["$"]
     cur = [doc]
-    for _ in range(rng.randint(1, max_seg)):
-        v = rng.choice(cur) if cur else None
+    for _seg in range(rng.randint(1, max_seg)):
+        # mostly stop where the walk has run out of containers (a further segment selects nothing)
+        if _seg > 0 and not any(isinstance(x, (list, dict)) and x for x in cur) and rng.random() < 0.85:
+            break
+        live = [x for x in cur if isinstance(x, (list, dict)) and x]
+        v = rng.choice(live) if live and rng.random() < 0.8 else (rng.choice(cur) if cur else None)
         out.append(g.S())
         k = rng.random()
         desc = rng.random() < 0.15
@@ -44,14 +48,14 @@ def walk_query(rng, doc, g, max_seg=4, filters=False):
         elif isinstance(v, list) and k < 0.6:
             if rng.random() < 0.5:
                 n = len(v)
-                i = rng.choice([0, -1, n - 1, -n, n, -n - 1, 1, rng.randint(-n - 1, n + 1)])
+                i = rng.choice([0, -1, n - 1, -n, 0, -1, rng.randrange(max(n, 1)), -rng.randint(1, max(n, 1)), n, -n - 1, 1, rng.randint(-n - 1, n + 1)])
                 out.append((".." if desc else "") + f"[{g.S()}{i}{g.S()}]")
                 nxt = []
                 for x in cur:
                     if isinstance(x, list) and -len(x) <= i < len(x):
                         nxt.append(x[i])
             else:
-                sl = g.slice_() if rng.random() < 0.4 else doc_slice(rng, len(v), g)
+                sl = g.slice_() if rng.random() < 0.5 else doc_slice(rng, len(v), g)
                 out.append((".." if desc else "") + "[" + sl + "]")
                 nxt = [y for x in cur if isinstance(x, list) for y in x]
         elif k < 0.8 or not filters:
@@ -109,7 +113,7 @@ def explore_c01(rng, tier, res, deep=False):
     for i in range(n):
         names = gen.NAMES if i % 3 == 0 else gen.SIMPLE_NAMES
         doc = gen.gen_doc(rng, depth=rng.choice([2, 3, 4]), names=names)
-        if i % 2 == 0:
+        if i % 4 != 1:
             q = walk_query(rng, doc, g if i % 3 == 0 else gs)
         else:
             q = (g if i % 3 == 0 else gs).query()
